@@ -70,6 +70,16 @@ for tag, cfg, ptype, pkind in [("none", "step", "unit", "None"),
                  "S", f"DynamicObstacle.state_at_time, prediction: {tag}", cfg, dyn(ptype, pkind)))
 
 
+def phantom(ptype, pkind):
+    return (f"(phantom_obs {ptype})", [("_prediction", "ph_pred", pkind)])
+
+
+# a phantom obstacle WITH a prediction calls occupancy_at_time_step inside the condition of an `if` (a generated loop in
+# expression position): outside the translatable subset, tied by correspondence only
+PHANTOM_JOBS = []
+ENV = ("(env_obs R)", [("_obstacle_shape", "eo_shape", "R")])
+
+
 def render_occupancy(tr, obj, heap, ret):
     """an Occupancy object as a value of Model/Occupancy.v's [occ R]"""
     extra = set(obj) - {"__class__", "_time_step", "_shape"}
@@ -114,6 +124,18 @@ def text():
         if dynrec is not None:
             tr.records["DynamicObstacle"] = dynrec
         defs.append(tr.translate(nm, tg, ps, rt, cm))
+    for tag, cfg, ptype, pkind in PHANTOM_JOBS:
+        tr.records = dict(BASE)
+        tr.records.update(CONFIGS[cfg])
+        tr.records["PhantomObstacle"] = phantom(ptype, pkind)
+        defs.append(tr.translate(f"src_phantom_occ_{tag}", ("method", "PhantomObstacle", "occupancy_at_time"),
+                                 [("o", "obj", "PhantomObstacle"), T], "(occ R)",
+                                 f"PhantomObstacle.occupancy_at_time, prediction: {tag}"))
+    tr.records = dict(BASE)
+    tr.records.update(CONFIGS["step"])
+    tr.records["EnvironmentObstacle"] = ENV
+    defs.append(tr.translate("src_env_occ", ("method", "EnvironmentObstacle", "occupancy_at_time"),
+                             [("o", "obj", "EnvironmentObstacle"), T], "(occ R)", "EnvironmentObstacle.occupancy_at_time"))
     srcs = ", ".join(f"{m.path} sha1={tr.sources[m.name]}" for m in tr.modules.values())
     out = ["(* GENERATED on every run by harness/vlib/py2coq.py + harness/props/c04_src.py (symbolic execution of the Python "
            "source). Do not edit.", f"   sources: {srcs} *)", HEADER, "", "Section Src.",
